@@ -16,7 +16,9 @@ Import List ListNotations.
 Local Open Scope list_scope.
 
 (* ---------- case format ---------- *)
-Record tinfo := { ti_ctx : nat; ti_ours : bool; ti_dec : option (string * bool) }.
+(* ti_ctx: the global context the task's function was DEFINED in (for a trigger closure made by a factory: the factory's);
+   ti_created: started by another task's task.create() (may never start when its creator ends first) *)
+Record tinfo := { ti_ctx : nat; ti_ours : bool; ti_dec : option (string * bool); ti_created : bool }.
 
 Record osnap := {
   o_n2t : list (key * task);
@@ -240,7 +242,8 @@ Definition last_is_quiet (evs : list oevent) : bool :=
 
 Definition vfinal (c : ucase) (v : vstate) : bool :=
   match v_post v with Some _ => false | None => true end
-  && forallb (fun t => memN t (started (v_s v))) (seqN (length (uc_tasks c)) 0%N)
+  && forallb (fun t => memN t (started (v_s v)) || match tinfo_of c t with Some ti => ti_created ti | None => false end)
+             (seqN (length (uc_tasks c)) 0%N)
   && last_is_quiet (uc_events c).
 
 Definition validate (cfg : deviations) (c : ucase) : option vstate :=
